@@ -88,6 +88,7 @@ type Exec struct {
 	nextIsDeferred bool
 	hugeNext  bool
 	keySeq    int
+	hashPairs [][2]*smt.Term
 	onceDone  map[uint64]bool
 	tls       map[int]map[uint64]Value
 	intrinsicFn *ssa.Function // the (instantiated) function an intrinsic stands for
@@ -222,6 +223,7 @@ func (x *Exec) threadID() int {
 // resetPath clears per-path state; call at the start of every explored path.
 func (x *Exec) resetPath() {
 	x.keySeq = 0
+	x.hashPairs = nil
 	x.tls = nil
 	x.onceDone = nil
 	if os.Getenv("SYMX_DEBUG") != "" {
